@@ -1825,8 +1825,35 @@ pub fn expr_cfgs(tier: Tier) -> Vec<ECfg> {
         trace: true,
     };
     let e2 = traced("E2-depth2-traced", 2, false);
+    // E5: sequences of string operations inside one expression (s = "b2"): all six comparisons and `..` over
+    // prefix-related / shared-prefix operands, results combined, so that state or operands left behind by one
+    // resumable string instruction change the value (or the stack) seen by the next
+    let e5 = ECfg {
+        name: "E5-depth2-strings",
+        depth: 2,
+        ints: vec!["7"],
+        bools: vec!["p"],
+        strs: match tier {
+            Tier::Quick => vec!["s", "\"b3\"", "\"\""],
+            Tier::Thorough => vec!["s", "\"b3\"", "\"\"", "\"b\"", "\"b2\""],
+        },
+        arith: vec![],
+        cmp: vec![],
+        strcmp: vec!["==", "!=", "<", "<=", ">", ">="],
+        booleq: vec!["=="],
+        logic: vec!["and"],
+        not: false,
+        neg: false,
+        if_int: false,
+        if_str: false,
+        blk: false,
+        blk2: false,
+        call2: false,
+        concat: true,
+        trace: false,
+    };
     match tier {
-        Tier::Quick => vec![e1, e2],
+        Tier::Quick => vec![e1, e2, e5],
         Tier::Thorough => {
             let e2w = traced("E2w-depth2-traced-2leaves", 2, true);
             // E3: depth 2, every operator, a variable and a literal leaf per type (one string leaf), untraced
@@ -1895,7 +1922,7 @@ pub fn expr_cfgs(tier: Tier) -> Vec<ECfg> {
                 concat: false,
                 trace: true,
             };
-            vec![e1, e2, e2w, e3, e4a, e4b]
+            vec![e1, e2, e2w, e3, e4a, e4b, e5]
         }
     }
 }
@@ -2533,9 +2560,9 @@ fn match_strata(_tier: Tier) -> Vec<Stratum> {
     v.push(mk("bool", "let x = ($2 + vh_next_int()) > 1", "x", &["true -> 1\nfalse -> 0", "false -> 0\n_ -> 1", "w -> if w {\n5\n} else {\n6\n}"], &["0", "2"]));
     v.push(mk(
         "option",
-        "let k = vh_next_int()\nlet o: option<int> = $2",
+        "let k = vh_next_int()\nlet j = k + 77\nlet o: option<int> = $2",
         "o",
-        &[".some(0) -> 100\n.some(n) -> n\n.none -> 0 - 1", ".none -> 0\n.some(n) -> n * 2", ".some(_) -> 1\n_ -> 2", "_ -> 3"],
+        &[".some(0) -> 100\n.some(n) -> n\n.none -> 0 - 1", ".none -> 0\n.some(n) -> n * 2", ".some(_) -> 1\n_ -> 2", "_ -> 3", ".some(j) -> j\n.none -> j + 1000", ".none -> j + 1000\n.some(j) -> j + 1"],
         &["option.some(5 + k)", "option.some(k)", "option.none", "mayb(k)", "mayb(k + 1)"],
     ));
     v.push(mk(
@@ -2547,7 +2574,7 @@ fn match_strata(_tier: Tier) -> Vec<Stratum> {
     ));
     v.push(mk(
         "enum",
-        "let k = vh_next_int()\nlet e = $2",
+        "let k = vh_next_int()\nlet j = k + 77\nlet e = $2",
         "e",
         &[
             ".Aa -> 0\n.Bb(n) -> n\n.Cc(n, _) -> n + 100\n.Dd(_) -> 9",
@@ -2555,14 +2582,15 @@ fn match_strata(_tier: Tier) -> Vec<Stratum> {
             ".Cc(n, t) -> {\nvh_emit_str(t)\nn\n}\n_ -> 7",
             ".Dd(_) -> 1\n.Aa -> 2\n_ -> 3",
             ".Cc(2, \"z\") -> 1\n.Cc(_, \"z\") -> 2\n.Cc(n, _) -> n\n_ -> 4",
+            ".Bb(j) -> j\n.Cc(n, _) -> n + (j * 1000)\n_ -> j + 7000",
         ],
         &["En.Aa", "En.Bb(4 + k)", "En.Bb(k)", "En.Cc(2 + k, \"z\")", "En.Cc(3, \"y\" .. k)"],
     ));
     v.push(mk(
         "tuple",
-        "let k = vh_next_int()\nlet t = ($2)",
+        "let k = vh_next_int()\nlet j = k + 77\nlet t = ($2)",
         "t",
-        &["(0, _) -> 0\n(n, true) -> n + 10\n(n, false) -> n + 20", "(_, true) -> 1\n(n, _) -> n", "(n, b) -> if b {\nn\n} else {\n0 - n\n}", "w -> {\nlet (n, _) = w\nn\n}", "(3, true) -> 1\n(3, false) -> 2\n(_, _) -> 3"],
+        &["(0, _) -> 0\n(n, true) -> n + 10\n(n, false) -> n + 20", "(_, true) -> 1\n(n, _) -> n", "(n, b) -> if b {\nn\n} else {\n0 - n\n}", "w -> {\nlet (n, _) = w\nn\n}", "(3, true) -> 1\n(3, false) -> 2\n(_, _) -> 3", "(0, _) -> j + 40\n(j, true) -> j + 10\n(n, false) -> n + (j * 1000)"],
         &["k, true", "k, false", "3 + k, k == 0", "3 + k, k > 0"],
     ));
     v.push(Stratum::list(
@@ -2738,7 +2766,7 @@ fn voidvariant_strata(_tier: Tier) -> Vec<Stratum> {
         "single-void-payload",
         "$0",
         vec![
-            match_forms("e", "let k = vh_next_int()\nlet e = $2"),
+            match_forms("e", "let k = vh_next_int()\nlet j = k + 77\nlet e = $2"),
             sv(&[".Dd(_) -> 9 + k\n_ -> 0", ".Aa -> 1\n.Dd(w) -> tv(w)\n_ -> 2", ".Bb(n) -> n\n.Dd(nil) -> 7\n_ -> 3"]),
             sv(&["En.Dd(nil)", "En.Dd(vf())", "En.Bb(k)"]),
         ],
@@ -2949,7 +2977,7 @@ pub fn formula_total(tier: Tier, scope: Scope) -> u64 {
     n += if q { 7 * 10 + 9 * 9 + 5 * 6 + 5 * 5 } else { 7 * 10 * 10 + 5 * 6 * 6 };
     n += 21 + 20 + 5 * 7 + 4 * 6 + 5 * 3 + 4 * 3 + (5 * 4 + 13);
     // F-match
-    n += 4 * (4 * 4 + 3 * 2 + 4 * 5 + 3 * 3 + 5 * 5 + 5 * 4) + 13;
+    n += 4 * (4 * 4 + 3 * 2 + 6 * 5 + 3 * 3 + 6 * 5 + 6 * 4) + 13;
     // S-jump: 20 positions x (4 jumps x 3 function wrappers + 2 top-level wrappers)
     n += 20 * (4 * 3 + 2);
     // S-voidvariant, S-empty
